@@ -25,6 +25,10 @@ def make_reads(rng, n, paired=False):
             seq = body + "A" * rng.randint(3, 12)
         elif kind < 0.65:
             seq = "N" * rng.randint(1, 3) + body + "NN"
+        elif kind < 0.8:
+            # the adapter is on the other strand: found only under --revcomp
+            fwd = body + AD1[: rng.randint(6, len(AD1))]
+            seq = fwd[::-1].translate(str.maketrans("ACGT", "TGCA"))
         else:
             seq = body
         qual = "".join(chr(33 + rng.choice((2, 12, 30, 38, 40))) for _ in seq)
@@ -51,6 +55,8 @@ OPTION_SETS = {
                       "--length-tag", "len=", "-o", "out.fastq"]),
     "dupnames": (False, ["-a", f"idx={AD1}", "-a", f"idx={AD2}", "-g", "idx=ACGTACGT;o=6", "-o", "out.fastq"]),
     "discard": (False, ["-b", AD1, "--discard-untrimmed", "--max-ee", "3", "-o", "out.fasta"]),
+    "revcomp_anywhere": (False, ["-b", AD1, "-a", f"lnk=ACGTAC...{AD2}", "--revcomp", "-m", "3", "-o", "out.fastq"]),
+    "paired_revcomp": (True, ["-a", AD1, "-A", AD2, "--revcomp", "-o", "o1.fastq", "-p", "o2.fastq"]),
 }
 
 
